@@ -157,7 +157,8 @@ func c17Stmt(r *rand.Rand, kinds []string, varName string) []lang.Tok {
 }
 
 // fault-1 tokens: no statement keywords, no braces, no lexical failures
-var c17Fault1 = wordsToToks([]string{"1", `"s"`, "x9", "=", "==", "+", "*", "(", ")", ":", "->", "and", "not", "true"})
+var c17Fault1 = append(wordsToToks([]string{"1", `"s"`, "x9", "=", "==", "+", "*", "(", ")", ":", "->", "and", "not", "true"}),
+	lang.Tok{Kind: lang.TStr, Text: `"\q"`}, lang.Tok{Kind: lang.TInt, Text: "08"}, lang.Tok{Kind: lang.TStr, Text: `"\q"`})
 
 func c17Mutate(r *rand.Rand, s []lang.Tok, vocab []lang.Tok, keepFirst bool) []lang.Tok {
 	lo := 0
